@@ -14,7 +14,7 @@
 (* length 0 or 1).  Events are plain records; the same records are emitted *)
 (* by TLC for replay on the code and logged by the code for validation.    *)
 (***************************************************************************)
-EXTENDS Entry, Views
+EXTENDS Entry, SetOps
 
 B2S(b) == IF b THEN <<1>> ELSE <<0>>
 Res(m, ret) == [m |-> m, ret |-> ret, pan |-> FALSE]
@@ -34,7 +34,28 @@ WriteThrough(m, slots, k) ==
 AWriteThrough(E, pvs, k) ==
     {IF \E j \in 1..Len(pvs) : pvs[j].p.n = e.n /\ (k = 0 \/ k = j) THEN [e EXCEPT !.v = Flip(@)] ELSE e : e \in E}
 Observers == {"Get", "GetKV", "Contains", "Lpm", "Spm", "Cover", "Children", "Iter", "Len",
-              "ViewDesc", "Find"}
+              "ViewDesc", "Find", "Alias"}
+
+\* C14: the slots to which mutable references are handed out simultaneously
+\*   "iter"        view.iter_mut()
+\*   "split"       (l, r) = view.split(); l.iter_mut() and r.iter_mut() at the same time
+\*   "split_union" (l, r) = view.split(); l.union_mut(r)   (two disjoint views of one map)
+AliasSlots(m, loc, how) ==
+    LET l == Left(m, loc)
+        r == Right(m, loc)
+        sl == IF l = <<>> THEN <<>> ELSE IterSlots(m, <<l[1].i>>)
+        sr == IF r = <<>> THEN <<>> ELSE IterSlots(m, <<r[1].i>>)
+    IN CASE how = "iter"  -> IterSlots(m, <<loc.i>>)
+         [] how = "split" -> sl \o sr
+         [] how = "split_union" ->
+              IF l = <<>> THEN sr ELSE IF r = <<>> THEN sl
+              ELSE LET u == UnionSlots(m, m, l[1], r[1]) IN
+                   \* every yielded item hands out its left and/or right reference
+                   LET RECURSIVE Flat(_)
+                       Flat(s) == IF s = <<>> THEN <<>>
+                                  ELSE (IF s[1].l # 0 THEN <<s[1].l>> ELSE <<>>) \o
+                                       (IF s[1].r # 0 THEN <<s[1].r>> ELSE <<>>) \o Flat(Tail(s))
+                   IN Flat(u)
 
 \* view_at(q) / view_mut_at(q) on the whole map
 ViewAt(m, q) == Find(m, RootLoc, q)
@@ -70,6 +91,11 @@ Apply(m, e) ==
       [] e.a = "ViewDesc"       -> LET at == ViewAt(m, e.p) IN
                                    Res(m, IF at = <<>> THEN <<>> ELSE <<Desc(m, at[1])>>)
       [] e.a = "Find"           -> Res(m, FindFrom(m, e.p, e.q, e.kind))
+      [] e.a = "Alias"          ->                  \* C14: all mutable references obtainable at once below view_mut_at(p)
+            LET at == ViewAt(m, e.p) IN
+            IF at = <<>> THEN Res(m, <<>>)
+            ELSE LET sl == AliasSlots(m, at[1], e.how) IN
+                 Res(m, <<[distinct |-> B2S(Cardinality(SeqToSet(sl)) = Len(sl))[1], n |-> Len(sl)]>>)
       [] e.a = "ViewSet"        ->                  \* TrieViewMut::set -- the counter is NOT updated (finding F4)
             LET at == ViewAt(m, e.p) IN
             IF at = <<>> THEN Res(m, <<>>)
@@ -122,7 +148,7 @@ AbsApply(E, e, r) ==
       [] e.a = "ChildrenMut"    -> ARes(AWriteThrough(E, AChildren(E, e.p), e.k), AChildren(E, e.p))
       \* views: the abstract map cannot know shapes or the prefixes of value-less nodes; the
       \* machine's answer is judged by the predicates in RetAgrees instead of by equality
-      [] e.a \in {"ViewDesc", "Find"} -> ARes(E, r.ret)
+      [] e.a \in {"ViewDesc", "Find", "Alias"} -> ARes(E, r.ret)
       [] e.a = "ViewSet"        ->
             IF r.ret = <<>> \/ r.ret[1].ok = 0 THEN ARes(E, r.ret)
             ELSE \* the value is stored under the node's existing prefix (documented)
@@ -165,6 +191,12 @@ RetAgrees(e, r, ar, E, canon, drift) ==
                       [] e.kind = "find_lpm"   -> FindLpmOK(EV, e.q, res)
                  \* on failure the original view is handed back
                  /\ r.ret[1].ok = 0 => r.ret[1].d.it = SortedPV(EV)
+    ELSE IF e.a = "Alias" THEN
+         \* C14: the references are pairwise distinct and cover exactly the entries of the regions
+         /\ ~r.pan
+         /\ r.ret # <<>> => /\ r.ret[1].distinct = 1
+                            /\ r.ret[1].n = Cardinality(AUnder(E, e.p)) -
+                                   (IF e.how \in {"split", "split_union"} /\ AHas(E, e.p.n) THEN 1 ELSE 0)
     ELSE IF e.a \in {"ViewSet", "ViewRemove", "ViewValueMut", "ViewIterMut"} THEN
          /\ ~r.pan /\ r.ret = ar.ret
          /\ r.ret = <<>> => AUnder(E, e.p) = {}
